@@ -255,16 +255,33 @@ theorem quiesceLoop_done {σ} {cfg : DevCfg σ} (hpos : cfg.tsm.TimeoutsPos) :
       obtain ⟨h1, h2, h3, h4⟩ := ih s1 hg1 (by omega)
       exact ⟨h1, h2, by rw [h3, hr1], by rw [h4, ha1]⟩
 
+/-- the re-enable task touches the DCC gate only -/
+theorem dccFire_spec {σ} (s : DevState σ) :
+    (dccFire s).sap.servers = s.sap.servers ∧ (dccFire s).sap.clients = s.sap.clients ∧
+    (dccFire s).sap.nextId = s.sap.nextId ∧ (dccFire s).routes = s.routes ∧ (dccFire s).app = s.app ∧
+    (dccFire s).nniPending = s.nniPending ∧ (dccFire s).dccTimer = none := by
+  unfold dccFire
+  cases h : s.dccTimer <;> simp [h]
+
+theorem dccFire_good {σ} {s : DevState σ} (hg : Good s) : Good (dccFire s) := by
+  obtain ⟨h1, h2, h3, _⟩ := dccFire_spec s
+  exact ⟨hg.1.congr h3 h2 h1, by rw [h2]; exact hg.2⟩
+
 theorem quiesce_done {σ} {cfg : DevCfg σ} (hpos : cfg.tsm.TimeoutsPos) {s : DevState σ} (hg : Good s) :
     Good (quiesce cfg s).1 ∧ (quiesce cfg s).1.sap.servers = [] ∧
     (quiesce cfg s).1.routes = s.routes ∧ (quiesce cfg s).1.app = s.app ∧
-    (quiesce cfg s).1.nniPending = false := by
+    (quiesce cfg s).1.nniPending = false ∧ (quiesce cfg s).1.dccTimer = none := by
   obtain ⟨h1, h2, h3, h4⟩ := quiesceLoop_done hpos _ s hg (Nat.le_refl (budget cfg.base.retries s.sap.servers))
   unfold quiesce
   dsimp only
   split
-  · exact ⟨h1.congr rfl, h2, h3, h4, rfl⟩
+  · obtain ⟨f1, _, _, f4, f5, f6, f7⟩ := dccFire_spec
+      ({ (quiesceLoop cfg (budget cfg.base.retries s.sap.servers) s).1 with nniPending := false } : DevState σ)
+    exact ⟨dccFire_good (h1.congr rfl), by rw [f1]; exact h2, by rw [f4]; exact h3, by rw [f5]; exact h4,
+      by rw [f6], f7⟩
   · rename_i hp
-    exact ⟨h1, h2, h3, h4, by simpa using hp⟩
+    obtain ⟨f1, _, _, f4, f5, f6, f7⟩ := dccFire_spec (quiesceLoop cfg (budget cfg.base.retries s.sap.servers) s).1
+    exact ⟨dccFire_good h1, by rw [f1]; exact h2, by rw [f4]; exact h3, by rw [f5]; exact h4,
+      by rw [f6]; simpa using hp, f7⟩
 
 end BacVerif.Device
